@@ -47,7 +47,20 @@ class Session:
         self.counter[base] = k + 1
         return "%s!%d" % (base, k)
 
-    def add_fact(self, f):
+    def add_fact(self, f, trigger=None, tier=None):
+        """trigger: a term defined/characterised by this fact; the fact is only handed to the
+        solver for goals in whose cone of influence the trigger occurs (discharge.select_facts).
+        tier: 0 basic hypotheses (harness assumptions, input invariants), 1 facts of cut
+        symbols, 2 instantiated axioms and checked safety conditions."""
+        if isinstance(f, z3.ExprRef):
+            if trigger is not None:
+                TRIGGERS[f.get_id()] = trigger
+                _KEEP.append((f, trigger))
+            if tier is None:
+                tier = 2 if trigger is not None else _default_tier[0]
+            if f.get_id() not in TIERS or TIERS[f.get_id()] > tier:
+                TIERS[f.get_id()] = tier
+                _KEEP.append((f, None))
         if f is True:
             return
         if f is False:
@@ -64,6 +77,10 @@ class Session:
         self.add_fact(f)
 
 
+TRIGGERS = {}     # fact id -> trigger term   (ids stay valid while _KEEP holds the terms)
+TIERS = {}
+_default_tier = [0]
+_KEEP = []
 _current = [Session("default")]
 
 
@@ -474,10 +491,14 @@ def oblige_safety(what, cond):
     k = s.counter.get(("safety", fn, what), 0)
     s.counter[("safety", fn, what)] = k + 1
     name = "safety/%s/%s#%d" % (fn, what, k)
-    s.obligations.append(Obligation(name, "safety", cond, list(s.facts), list(s.pc)))
+    meta = {"expect": "proved"}
+    deps = s.ghost.get("active_hints")
+    if deps:
+        meta["hint_obs"] = list(deps)
+    s.obligations.append(Obligation(name, "safety", cond, list(s.facts), list(s.pc), meta))
     # after the check the condition may be assumed (assert-then-assume)
     if cond is not False:
-        s.add_fact(z3.Implies(z3.And(*s.pc), cond) if s.pc else cond)
+        s.add_fact(z3.Implies(z3.And(*s.pc), cond) if s.pc else cond, tier=2)
 
 
 class no_safety:
@@ -525,8 +546,8 @@ def sqrt(x, where="sqrt"):
     tx = treal(x)
     s = UF_sqrt(tx)
     ses = cur()
-    ses.add_fact(z3.Implies(tx >= 0, z3.And(s >= 0, s * s == tx)))
-    ses.add_fact(z3.Implies(tx > 0, s > 0))
+    ses.add_fact(z3.Implies(tx >= 0, z3.And(s >= 0, s * s == tx)), trigger=s)
+    ses.add_fact(z3.Implies(tx > 0, s > 0), trigger=s)
     key = s.get_id()
     if key not in ses.ghost.setdefault("sqrt_seen", set()):
         ses.ghost["sqrt_seen"].add(key)
@@ -544,15 +565,15 @@ def rpow(x, y, where="pow"):
     tx, ty = treal(x), treal(y)
     r = UF_rpow(tx, ty)
     ses = cur()
-    ses.add_fact(z3.Implies(tx > 0, r > 0))
-    ses.add_fact(z3.Implies(z3.And(tx > 0, ty == 0), r == 1))
-    ses.add_fact(z3.Implies(z3.And(tx > 0, ty == 1), r == tx))
-    ses.add_fact(z3.Implies(tx == 1, r == 1))
+    ses.add_fact(z3.Implies(tx > 0, r > 0), trigger=r)
+    ses.add_fact(z3.Implies(z3.And(tx > 0, ty == 0), r == 1), trigger=r)
+    ses.add_fact(z3.Implies(z3.And(tx > 0, ty == 1), r == tx), trigger=r)
+    ses.add_fact(z3.Implies(tx == 1, r == 1), trigger=r)
     # monotonic in the base w.r.t. 1
-    ses.add_fact(z3.Implies(z3.And(tx > 1, ty > 0), r > 1))
-    ses.add_fact(z3.Implies(z3.And(tx > 0, tx < 1, ty > 0), r < 1))
-    ses.add_fact(z3.Implies(z3.And(tx > 1, ty < 0), r < 1))
-    ses.add_fact(z3.Implies(z3.And(tx > 0, tx < 1, ty < 0), r > 1))
+    ses.add_fact(z3.Implies(z3.And(tx > 1, ty > 0), r > 1), trigger=r)
+    ses.add_fact(z3.Implies(z3.And(tx > 0, tx < 1, ty > 0), r < 1), trigger=r)
+    ses.add_fact(z3.Implies(z3.And(tx > 1, ty < 0), r < 1), trigger=r)
+    ses.add_fact(z3.Implies(z3.And(tx > 0, tx < 1, ty < 0), r > 1), trigger=r)
     key = r.get_id()
     if key not in ses.ghost.setdefault("rpow_seen", set()):
         ses.ghost["rpow_seen"].add(key)
@@ -598,7 +619,7 @@ def log(x, where="log"):
     oblige_safety(where + ":log-arg-positive", gt(x, 0))
     tx = treal(x)
     r = UF_log(tx)
-    cur().add_fact(z3.Implies(tx == 1, r == 0))
+    cur().add_fact(z3.Implies(tx == 1, r == 0), trigger=r)
     return r
 
 
@@ -608,7 +629,7 @@ def cos(x):
         return 1
     tx = treal(x)
     c, s = UF_cos(tx), UF_sin(tx)
-    cur().add_fact(c * c + s * s == 1)
+    cur().add_fact(c * c + s * s == 1, trigger=c)
     return c
 
 
@@ -618,7 +639,7 @@ def sin(x):
         return 0
     tx = treal(x)
     c, s = UF_cos(tx), UF_sin(tx)
-    cur().add_fact(c * c + s * s == 1)
+    cur().add_fact(c * c + s * s == 1, trigger=s)
     return s
 
 
